@@ -30,6 +30,10 @@ def scanWal (lastCommit : Nat) (pend : List CEnt) (pos valid : Nat) (acc : List 
   | .walFin ts :: rest =>
     if lastCommit ≠ ts then { ents := acc, valid := valid }
     else scanWal 0 [] (pos + 1) (pos + 1) (acc ++ pend) rest
+  | .walPlain e :: rest =>
+    -- "most likely an entry which was moved as part of GC": not allowed inside a transaction
+    if lastCommit ≠ 0 then { ents := acc, valid := valid }
+    else scanWal 0 [] (pos + 1) (pos + 1) (acc ++ [e]) rest
   | _ :: _ => { ents := acc, valid := valid }
 
 /-- replay of one log file: skip the header (an all-zero header region is read as "no
